@@ -30,6 +30,12 @@ import (
 //               1: UnknownMemberId, 2: connection dropped): errors reach Errors() while the group is open, the offsets
 //               are still dirty when Close is called and the final commit of the release fails too
 //   nocoord     FindCoordinator answers ConsumerCoordinatorNotAvailable: Consume fails, is called again
+//   coordlost   the coordinator becomes unreachable while Consume is in its retry path, and every lookup fails FAST (the
+//               metadata answers carry __consumer_offsets, so a failed RefreshCoordinator costs two round trips and one
+//               Metadata.Retry.Backoff, not seconds): mode 0 the very first lookup fails, mode 1 the first lookup succeeds,
+//               JoinGroup answers NotCoordinatorForConsumer and every later lookup fails, mode 2 as 1 with SyncGroup
+//               answering NotCoordinatorForConsumer; heal = 1: lookups succeed again after `nerr` failures. Close arrives
+//               while retryNewSession is refreshing the coordinator in a loop (adversary change C12-11)
 //   silentjoin  JoinGroup is never answered (read timeout)
 //   race        (needs the hook of hooks/c12_group_handleerror.patch; without it an ordinary run) the partition
 //               consumer reports errors; the first error forwarder that has passed handleError's closed check is
@@ -51,6 +57,8 @@ type grpScript struct {
 	syncs    int32
 	beats    int32
 	heldOnce int32
+	finds    int32
+	lost     int32 // coordlost: 1 once the coordinator was declared lost
 	gen      int32
 	fetches  int32
 	nmsg     int
@@ -71,11 +79,25 @@ func (s *grpScript) handler() func(string, interface{}) interface{} {
 			for p := 0; p < np; p++ {
 				r.AddTopicPartition(topic, int32(p), b.BrokerID(), []int32{b.BrokerID()}, []int32{b.BrokerID()}, nil, sarama.ErrNoError)
 			}
+			if s.spec.Scen == "coordlost" {
+				r.AddTopicPartition("__consumer_offsets", 0, b.BrokerID(), []int32{b.BrokerID()}, []int32{b.BrokerID()}, nil, sarama.ErrNoError)
+			}
 			return r
 		case "FindCoordinatorRequest":
 			m := sarama.NewMockFindCoordinatorResponse(quietT{s.rc})
 			if s.spec.Scen == "nocoord" {
 				return m.SetError(sarama.CoordinatorGroup, groupID, sarama.ErrConsumerCoordinatorNotAvailable)
+			}
+			if s.spec.Scen == "coordlost" {
+				if s.spec.p("mode", 0) == 0 {
+					atomic.StoreInt32(&s.lost, 1)
+				}
+				if atomic.LoadInt32(&s.lost) == 1 {
+					n := atomic.AddInt32(&s.finds, 1)
+					if s.spec.p("heal", 0) == 0 || int(n) <= s.spec.p("nerr", 3) {
+						return m.SetError(sarama.CoordinatorGroup, groupID, sarama.ErrConsumerCoordinatorNotAvailable)
+					}
+				}
 			}
 			return m.SetCoordinator(sarama.CoordinatorGroup, groupID, b)
 		case "JoinGroupRequest":
@@ -96,12 +118,19 @@ func (s *grpScript) handler() func(string, interface{}) interface{} {
 				if int(n) <= s.spec.p("nerr", 1) {
 					return &sarama.JoinGroupResponse{Version: req.Version, Err: sarama.ErrRebalanceInProgress}
 				}
+			case "coordlost":
+				if s.spec.p("mode", 0) == 1 && atomic.CompareAndSwapInt32(&s.lost, 0, 1) {
+					return &sarama.JoinGroupResponse{Version: req.Version, Err: sarama.ErrNotCoordinatorForConsumer}
+				}
 			}
 			return ok
 		case "SyncGroupRequest":
 			n := atomic.AddInt32(&s.syncs, 1)
 			if s.spec.Scen == "syncretry" && int(n) <= s.spec.p("nerr", 1) {
 				return &sarama.SyncGroupResponse{Err: sarama.ErrRebalanceInProgress}
+			}
+			if s.spec.Scen == "coordlost" && s.spec.p("mode", 0) == 2 && atomic.CompareAndSwapInt32(&s.lost, 0, 1) {
+				return &sarama.SyncGroupResponse{Err: sarama.ErrNotCoordinatorForConsumer}
 			}
 			parts := make([]int32, np)
 			for i := range parts {
